@@ -130,6 +130,22 @@ WellFormedFile(a, f) ==
     /\ f.ns = N1(a) /\ f.np = N2(a) /\ (a.mp = "spa" => f.nl = N3(a))
     /\ ListsOK(a, f) /\ TiesOK(a, f) /\ QuotasOK(a, f) /\ SecondSideOK(a, f)
 
+(* Growth: the trailing parameter block echoes the accepted arguments       *)
+(* (after defaults).  Values are rationals <<num, den>> in lowest terms.     *)
+Gcd(a, b) == CHOOSE d \in 1 .. Max2(a, Max2(b, 1)) :
+                /\ a % d = 0 /\ b % d = 0
+                /\ \A e \in d + 1 .. Max2(a, Max2(b, 1)) : ~(a % e = 0 /\ b % e = 0)
+Rat(a, b) == LET g == Gcd(a, b) IN <<a \div g, b \div g>>
+BlockExpected(a) ==
+    << <<"number_of_agents_type_1", Rat(N1(a), 1)>>, <<"number_of_agents_type_2", Rat(N2(a), 1)>> >>
+    \o (IF a.mp = "spa" THEN << <<"number_of_agents_type_3", Rat(N3(a), 1)>> >> ELSE <<>>)
+    \o << <<"min_pref_list_length", Rat(a.v["pmin"], 1)>>, <<"max_pref_list_length", Rat(a.v["pmax"], 1)>>,
+           <<"ties_probability_1", Rat(T1(a), 4)>>, <<"ties_probability_2", Rat(T2(a), 4)>>,
+           <<"sum_agent2_lower_quotas", Rat(LQ(a), 1)>>, <<"sum_agent2_upper_quotas", Rat(UQ(a), 1)>>,
+           <<"skew_for_agent_1", Rat(Val(a, "skew", 2), 2)>> >>
+    \o (IF a.mp = "spa" THEN << <<"sum_agent3_lower_quotas", Rat(LLQ(a), 1)>>, <<"sum_agent3_targets", Rat(LT(a), 1)>>,
+                                 <<"sum_agent3_upper_quotas", Rat(a.v["luq"], 1)>> >> ELSE <<>>)
+
 -----------------------------------------------------------------------------
 (* Mech: the generator run as a state machine.                             *)
 VARIABLES args, gphase, dir, files, cur
